@@ -204,6 +204,8 @@ def rule_R_GUARD_STR_KW(ctx, repo):
     m, closures = factory_closures(repo)
     n_round = 0
     n_custom = 0
+    inlined_rebuilds = {}
+    pending_rebuilds = []
     for fi, node, env, eng, is_main in closures:
         qual = '%s.%s' % (fi.qual, node.name)
         ctx.analysed(qual)
@@ -265,8 +267,16 @@ def rule_R_GUARD_STR_KW(ctx, repo):
                                  '(floor/ceil/format arithmetic) differs from round() on ties, near-ties and huge values, so calls that round to the same value no longer '
                                  'share an entry (or a valid call overflows)' % render(x)[:60], '%s:%d' % (m.rel, node.lineno), render_path(o))
             for e in o.st.events:
+                if e.depth > 0 and e.kind == 'REBUILD' and is_main:
+                    # a rebuild inside an inlined helper (rebuilt(j, items)): the caller's tests on the element decide whether a str can arrive
+                    x = e.args[0]
+                    arg = e.args[1] if len(e.args) > 1 else None
+                    facts = isinstance_fact(o, x)
+                    ok = any((not b) and any(n_ in STRLIKE for n_ in names) for names, b in facts) \
+                        or any(b and not any(n_ in STRLIKE for n_ in names) for names, b in facts) or arg == x or x == own_va
+                    inlined_rebuilds.setdefault(e.line, []).append((ok, qual, x, arg, o))
                 if e.depth > 0:
-                    continue    # events of an inlined local helper are judged when that helper is analysed
+                    continue    # other events of an inlined local helper are judged when that helper is analysed
                 if e.kind == 'ROUND':
                     n_round += 1
                     x = e.args[0]
@@ -296,6 +306,9 @@ def rule_R_GUARD_STR_KW(ctx, repo):
                     known_other = any(b and not any(n_ in STRLIKE for n_ in names) for names, b in facts)
                     identity = arg == x
                     ok = excluded or known_other or identity or x == own_va   # *args is always a tuple
+                    if not ok and not is_main and x[0] == 'param':
+                        pending_rebuilds.append((e.line, qual, x, arg, o, node.name))
+                        continue    # the helper's parameter: what can arrive is decided by its call sites (below)
                     ctx.ob('R-STR', '%s type(%s)(...)' % (node.name, unparse_short(x)), ok)
                     if not ok:
                         ctx.fail('R-STR', qual, 'type(%s)(%s) may rebuild a str' % (render(x), render(arg)[:40] if arg else ''),
@@ -311,6 +324,24 @@ def rule_R_GUARD_STR_KW(ctx, repo):
                                  'a data dictionary (%s) is expanded with ** into a call: keyword names must be strings, so a valid call whose argument is a '
                                  'dict with non-string keys fails with TypeError inside the rounder' % render(x),
                                  '%s:%d' % (m.rel, e.line), render_path(o))
+    done = set()
+    for line, qual, x, arg, o, hname in pending_rebuilds:
+        if line in done:
+            continue
+        done.add(line)
+        sites = inlined_rebuilds.get(line)
+        if sites:
+            bad = [s_ for s_ in sites if not s_[0]]
+            ctx.ob('R-STR', '%s type(%s)(...) at its %d inlined call paths' % (hname, unparse_short(x), len(sites)), not bad)
+            if not bad:
+                continue
+            _, qual, x, arg, o = bad[0]
+        else:
+            ctx.ob('R-STR', '%s type(%s)(...)' % (hname, unparse_short(x)), False)
+        ctx.fail('R-STR', qual, 'type(%s)(%s) may rebuild a str' % (render(x), render(arg)[:40] if arg else ''),
+                 'a container is rebuilt as type(%s)(<items>) on a path that does not exclude str: type("abc")(list("abc")) is "[\'a\', \'b\', \'c\']", '
+                 'so a string argument is mangled (the sibling deep_round tests for str before iterating)' % render(x),
+                 '%s:%d' % (m.rel, line), render_path(o))
     if n_round < 3 and not n_custom:      # at least one rounding site per factory (deep / simple / shallow)
         raise AnalysisError('instance count below confirmed minimum: %d round() call events (< 3)' % n_round)
 
@@ -507,6 +538,11 @@ def rule_W_KEY_keygen(ctx, repo):
                         ok = (v[0] == 'call' and v[2] == (('star', ('proj', 0, G)),) and v[3] == (('dstar', ('proj', 1, G)),)
                               and G[0] == 'call' and libname(G[1]) == '_keygen' and G[2][0] == fparam
                               and (G[2][1] == ignored or contains_term(G[2][1], lambda t: t == ignored)))     # the decorator's specification (possibly extended by an option)
+                        # ... whole: not a selection of its entries (a comprehension with a filter, a slice) - an entry "that cannot match" by the reckoning of
+                        # signature() (a required keyword-only parameter is in none of its lists) is still matched by _keygen among the call's keywords
+                        if ok and G[2][1] != ignored and contains_term(G[2][1], lambda t: (t[0] == 'comp' and len(t) > 3 and contains_term(t, lambda u: u == ignored))
+                                                                       or (t[0] == 'sub' and t[1] == ignored)):
+                            ok = False
                         Rr = G[2][2][1][2]
                         ok = ok and G[2][2] == ('star', ('proj', 0, Rr)) and G[3] == (('dstar', ('proj', 1, Rr)),)
                         ok = ok and Rr[0] == 'call' and Rr[1] == ra and len(Rr[2]) == 1 and Rr[2][0][0] == 'star' and len(Rr[3]) == 1 and Rr[3][0][0] == 'dstar'
@@ -538,6 +574,26 @@ def rule_W_KEY_keygen(ctx, repo):
                                      'objects the caller passed (copies lose identity and in-place effects, and an argument that cannot be copied makes a valid call fail)'
                                      % (render(remembered.get(0, ('opaque', 'nothing')))[:60], render(remembered.get(1, ('opaque', 'nothing')))[:60]),
                                      '%s:%d' % (m.rel, cnode.lineno), render_path(co))
+                        cells = set(e.args[0] for e in co.st.events if e.kind == 'SETITEM' and e.depth == 0 and len(e.args) == 3)
+                        # ... and only func() writes them: call(), valid() and key() read the same slots, in any order and any number of times
+                        for oname, ov in sorted(env.items()):
+                            if oname == 'func' or not isinstance(ov, tuple) or not ov or ov[0] != 'closure' or ov[2] not in eng._closures:
+                                continue
+                            onode = eng._closures[ov[2]][0]
+                            if not isinstance(onode, ast.FunctionDef) or onode.args.vararg is not None or onode.args.args:
+                                continue        # the argument-less accessors
+                            hit = None
+                            for oo in eng.run_function(onode, env):
+                                for e in oo.st.events:
+                                    if e.kind == 'SETITEM' and len(e.args) == 3 and e.args[0] in cells:
+                                        hit = (e, oo)
+                            ctx.ob('W-ARGS', 'keygen.dec.%s leaves the remembered arguments alone' % oname, hit is None)
+                            if hit is not None:
+                                e, oo = hit
+                                ctx.fail('W-ARGS', '%s.dec.%s' % (fi.qual, oname), '%s() overwrites the remembered arguments' % oname,
+                                         'klepto.keygen\'s %s() stores %s into the slots that hold the most recently provided (*args, **kwds): key(), valid() and call() all '
+                                         'read those slots, so after %s() they answer for other arguments than the ones provided - `memo[f.key()] = f.call()` files every '
+                                         'result under the key of the argument-less call' % (oname, render(e.args[2])[:40], oname), '%s:%d' % (m.rel, e.line), render_path(oo))
                     ctx.ob('W-KEY', 'keygen.dec.%s' % cname, ok)
                     if not ok:
                         ctx.fail('W-KEY', qual, 'keygen %s key %s' % (cname, render(v)[:80]),
@@ -605,6 +661,23 @@ def rule_R_PURE(ctx, repo):
     ctx.ob('R-PURE', 'in-place mutation sites examined', True, n=max(1, n))
 
 
+def _rebuilt_recursively(val, events, rounder):
+    """the stored value is built from the rounder's recursive result: it contains the recursive call, or it is a fresh object (a copy of the
+    container) into which recursively rounded values were then assigned (new = copy(j); for k, v in zip(new, values): new[k] = v)"""
+    def rec(t):
+        return contains_term(t, lambda x: x[0] == 'call' and x[1][0] == 'opaque' and x[1][1] == rounder)
+    if rec(val):
+        return True
+    base = val[1] if val[0] == 'mut' else val
+    for e2 in events:
+        if e2.kind == 'SETITEM' and len(e2.args) == 3 and rec(e2.args[2]):
+            tgt = e2.args[0]
+            tb = tgt[1] if tgt[0] == 'mut' else tgt
+            if tb == base:
+                return True
+    return False
+
+
 def rule_R_DEEP(ctx, repo):
     """deep rounding reaches floats at any depth: dict values and the elements of every other iterable are rounded recursively"""
     m, closures = factory_closures(repo)
@@ -624,7 +697,7 @@ def rule_R_DEEP(ctx, repo):
                 if e.kind != 'SETITEM' or e.depth > 0:
                     continue
                 val = e.args[2]
-                rec = contains_term(val, lambda t: t[0] == 'call' and t[1][0] == 'opaque' and t[1][1] == node.name)
+                rec = _rebuilt_recursively(val, o.st.events, node.name)
                 if not rec:
                     continue
                 idx = e.args[1]
@@ -657,8 +730,7 @@ def rule_R_DEEP(ctx, repo):
                 continue
             npaths += 1
             truth = o.st.facts.get('truth', {})
-            stores = [e.args[2] for e in o.st.events if e.kind == 'SETITEM' and e.depth == 0
-                      and contains_term(e.args[2], lambda t: t[0] == 'call' and t[1][0] == 'opaque' and t[1][1] == node.name)]
+            stores = [e.args[2] for e in o.st.events if e.kind == 'SETITEM' and e.depth == 0 and _rebuilt_recursively(e.args[2], o.st.events, node.name)]
             for t, b in truth.items():
                 if not b or t[0] != 'call' or not t[2]:
                     continue
@@ -673,6 +745,9 @@ def rule_R_DEEP(ctx, repo):
                     continue
                 if truth.get(x) is False:
                     continue      # an empty container: nothing to round
+                if any(contains_term(z, lambda u: u[0] == 'call' and u[1][0] == 'opaque' and u[1][1] == node.name and contains_term(u, lambda w: w == x))
+                       for z in o.st.facts.get('zeroit', ())):
+                    continue      # the loop over its recursively rounded elements ran zero times: the container is empty
                 extra = [render(tt)[:40] + ('' if bb else ' is false') for tt, bb in truth.items()
                          if tt is not t and contains_term(tt, lambda u: u == x) and not (tt[0] == 'call' and tt[1] == ('lib', 'isinstance'))
                          and not (tt[0] == 'call' and tt[1][0] == 'lib' and libname(tt[1]) == 'isiterable')]
